@@ -360,4 +360,151 @@ def b64EncodeReq (size : Nat) : Nat := ((size * 8) % 2 ^ 64 / 6 + 2) % 2 ^ 64
 (before a byte is read)? -/
 def hexEncodeStrThrows (size : Nat) : Bool := strMaxSize < hexEncodeStrReq size
 
+/-! ### round 3 — access.h on either byte order
+
+`access.h` selects the lane macros by `__BYTE_ORDER__`.  Lanes are numbered by
+significance (`0` = least significant byte … `n-1` = most significant:
+`UINT32_LLO` is lane 0, `UINT32_HHI` lane 3).  `macroOff e n j` is the address
+offset the macro of lane `j` uses in the branch for byte order `e`;
+`objByte e n v k` is byte `k` (address order) of the object representation of
+`v` on a machine of byte order `e`.  The harness prints the offsets of the
+compiled branch (op `lanes`), the driver prints `laneOffsets .little`. -/
+
+inductive Endian | little | big
+  deriving DecidableEq, Repr
+
+/-- `#define INTn_…(arg) *((uint8_t *)&arg + off)` -/
+def macroOff (e : Endian) (n j : Nat) : Nat :=
+  match e with
+  | .little => j
+  | .big => n - 1 - j
+
+/-- byte `k` of the `n`-byte object holding `v` -/
+def objByte {w : Nat} (e : Endian) (n : Nat) (v : BitVec w) (k : Nat) : Byte :=
+  match e with
+  | .little => lane v k
+  | .big => lane v (n - 1 - k)
+
+/-- the value held by an object with the given bytes (address order) -/
+def valOfObj (e : Endian) (w : Nat) (obj : List Byte) : BitVec w :=
+  match e with
+  | .little => ofLanes w obj
+  | .big => ofLanes w obj.reverse
+
+/-- `MACRO_j(out) = v;` for the listed `(lane j, v)` in source order, on an
+`n`-byte object (initially indeterminate: modelled as zero, every byte is stored) -/
+def objOfStores (e : Endian) (n : Nat) (stores : List (Nat × Byte)) : List Byte :=
+  stores.foldl (fun obj jv => obj.set (macroOff e n jv.1) jv.2) (List.replicate n 0#8)
+
+/-- the offsets of `UINT16_HI, UINT16_LO, UINT32_HHI … UINT32_LLO, UINT64_HHHI … UINT64_LLLO` -/
+def laneOffsets (e : Endian) : List Nat :=
+  [macroOff e 2 1, macroOff e 2 0,
+   macroOff e 4 3, macroOff e 4 2, macroOff e 4 1, macroOff e 4 0,
+   macroOff e 8 7, macroOff e 8 6, macroOff e 8 5, macroOff e 8 4,
+   macroOff e 8 3, macroOff e 8 2, macroOff e 8 1, macroOff e 8 0]
+
+/-- `half2hex(HIHALF(M(in))), half2hex(LOHALF(M(in)))` for the macro of lane `j` -/
+def laneHex {w : Nat} (e : Endian) (n : Nat) (v : BitVec w) (j : Nat) : List Byte :=
+  let b := objByte e n v (macroOff e n j)
+  [half2hex (HIHALF b), half2hex (LOHALF b)]
+
+def uint16ToHexE (e : Endian) (v : BitVec 16) : List Byte := laneHex e 2 v 1 ++ laneHex e 2 v 0
+def uint32ToHexE (e : Endian) (v : BitVec 32) : List Byte :=
+  laneHex e 4 v 3 ++ laneHex e 4 v 2 ++ laneHex e 4 v 1 ++ laneHex e 4 v 0
+def uint64ToHexE (e : Endian) (v : BitVec 64) : List Byte :=
+  laneHex e 8 v 7 ++ laneHex e 8 v 6 ++ laneHex e 8 v 5 ++ laneHex e 8 v 4 ++
+  laneHex e 8 v 3 ++ laneHex e 8 v 2 ++ laneHex e 8 v 1 ++ laneHex e 8 v 0
+
+def hexToUint16E (e : Endian) (hex : List Byte) : BitVec 16 :=
+  valOfObj e 16 (objOfStores e 2 [(1, hexAt hex 0), (0, hexAt hex 2)])
+def hexToUint32E (e : Endian) (hex : List Byte) : BitVec 32 :=
+  valOfObj e 32 (objOfStores e 4 [(3, hexAt hex 0), (2, hexAt hex 2), (1, hexAt hex 4), (0, hexAt hex 6)])
+def hexToUint64E (e : Endian) (hex : List Byte) : BitVec 64 :=
+  valOfObj e 64 (objOfStores e 8 [(7, hexAt hex 0), (6, hexAt hex 2), (5, hexAt hex 4), (4, hexAt hex 6),
+    (3, hexAt hex 8), (2, hexAt hex 10), (1, hexAt hex 12), (0, hexAt hex 14)])
+
+/-! ### round 3 — `hexascii_encode` with the C `int size`, in-place decoding -/
+
+/-- the byte loop of `hexascii_encode`: `n` iterations left, `it` = read
+offset, `k` = write offset, `cap` = bytes mapped at `out` -/
+def encLoopM (cs : List Byte) (cap : Nat) : (n it k : Nat) → List Byte → Option (List Byte)
+  | 0, _, _, acc => some acc
+  | n + 1, it, k, acc =>
+    match cs[it]? with
+    | some b =>
+      if k + 1 < cap then encLoopM cs cap n (it + 1) (k + 2) (acc ++ [encHi b, encLo b]) else none
+    | none => none
+
+/-- `hexascii_encode(indata, size, out)` with the C `int size`: `eit = indata +
+size`, `for (it = data; it != eit; ++it)`.  A negative `size` puts `eit` in
+front of the object; `it` walks upwards and never meets it inside any buffer:
+fault. -/
+def hexEncodeM (cs : List Byte) (size : Int) (cap : Nat) : Option (List Byte) :=
+  if size < 0 then none else encLoopM cs cap size.toNat 0 0 []
+
+/-- `hexascii_decode(buf, size, buf)` (the API takes two unrelated `void *`;
+nothing forbids `out == indata`): the loop on ONE buffer — iteration `k` loads
+`buf[2k]`, `buf[2k+1]`, then stores `buf[k]` -/
+def decInPlace : (n k : Nat) → List Byte → Option (List Byte)
+  | 0, _, buf => some buf
+  | n + 1, k, buf =>
+    match buf[2 * k]?, buf[2 * k + 1]? with
+    | some hi, some lo => decInPlace n (k + 1) (buf.set k (hex2byte hi lo))
+    | _, _ => none
+
+def hexDecodeInPlaceM (buf : List Byte) (size : Int) : Option (List Byte) :=
+  let size := if size.tmod 2 = 1 then size - 1 else size
+  if size ≤ 0 then some buf else decInPlace (size.toNat / 2) 0 buf
+
+/-! ### round 3 — accumulator forms for long inputs
+
+`decPairsM`, `decLoop`, `decLoopM` append to the end of a list and index with
+`[i]?`: quadratic.  The driver runs the forms below on long inputs; the
+theorems `hexEncodeFast_eq`, `hexDecodeFast_eq`, `b64EncodeFast_eq`,
+`b64DecodeFast_eq` (Props.lean) prove them equal to the model for every input. -/
+
+def hexEncodeTR : List Byte → List Byte → List Byte
+  | [], acc => acc.reverse
+  | b :: rest, acc => hexEncodeTR rest (encLo b :: encHi b :: acc)
+def hexEncodeFast (data : List Byte) : List Byte := hexEncodeTR data []
+
+def decPairsTR : List Byte → List Byte → List Byte
+  | hi :: lo :: rest, acc => decPairsTR rest (hex2byte hi lo :: acc)
+  | _, acc => acc.reverse
+def hexDecodeFast (cs : List Byte) : List Byte := decPairsTR cs []
+
+def b64EncodeTR : List Byte → List Byte → List Byte
+  | a :: b :: c :: rest, acc => b64EncodeTR rest (e3 c :: e2 b c :: e1 a b :: e0 a :: acc)
+  | [a, b], acc => (csAt 64#32 :: e2t b :: e1 a b :: e0 a :: acc).reverse
+  | [a], acc => (csAt 64#32 :: csAt 64#32 :: e1t a :: e0 a :: acc).reverse
+  | [], acc => acc.reverse
+def b64EncodeFast (data : List Byte) : List Byte := b64EncodeTR data []
+
+/-- `decLoop` with the decoded bytes accumulated in reverse -/
+def decLoopTR : List Byte → List Byte → List Byte → List Byte × List Byte
+  | [], arr, racc => (arr, racc)
+  | c :: rest, arr, racc =>
+    if c == 0x3D#8 || !isBase64 c then (arr, racc) else
+    let arr := arr ++ [c]
+    if arr.length = 4 then decLoopTR rest [] ((decQuad arr).reverse ++ racc) else decLoopTR rest arr racc
+
+def b64DecodeFast (s : List Byte) : List Byte :=
+  let st := decLoopTR s [] []
+  decFinish (st.1, st.2.reverse)
+
+/-- the 48 bytes whose six-bit groups are 0, 1, …, 63 (op `alphas`: encoding
+them prints the alphabet the build uses) -/
+def sextetRamp : List Byte :=
+  (List.range 16).flatMap fun q =>
+    let g := 4 * q
+    let v := g * 2 ^ 18 + (g + 1) * 2 ^ 12 + (g + 2) * 2 ^ 6 + (g + 3)
+    [BitVec.ofNat 8 (v / 2 ^ 16), BitVec.ofNat 8 (v / 2 ^ 8), BitVec.ofNat 8 v]
+
+/-- the types the model fixes, as the harness prints them from the compiled
+declarations (op `widths`): `s4` = signed, 4 bytes -/
+def widthsText : String :=
+  "int:s4 size_t:u8 char:s1 hexascii_encode.size:s4 hexascii_decode.size:s4 hex2half:u1 half2hex:s1 " ++
+  "hex2byte:u1 HIHALF:u1 hex_to_uint8:u1 hex_to_uint16:u2 hex_to_uint32:u4 hex_to_uint64:u8 " ++
+  "igris.hexascii_encode.size:u8 base64_encode.size:u8 base64url_encode.size:u8 string.size:u8"
+
 end Igris.C18
